@@ -87,6 +87,10 @@ def gen_case(rng, name, with_unknown):
       y[np.flatnonzero(y == i)[0]] = -1
     if y[0] >= 0 and (y == y[0]).sum() > 4:
       y[0] = -1
+    if rng.random() < 0.6:
+      # "negative" is the documented marker of an unlabeled point, not only -1: several different negative values
+      u = np.flatnonzero(y < 0)
+      y[u] = rng.choice([-1, -2, -3, -9], size=len(u))
   seed = int(rng.integers(1000))
   hyper = dict(gen.FAST[name])
   hyper['random_state'] = seed
